@@ -155,7 +155,15 @@ class Machine:
         res = attempt(s.peek if peek else s.read, arg)
         m = token_model(tok, self.bits, self.pos)
         if scale is not None and m[0] == 'ok' and isinstance(m[1], (int, float)) and not isinstance(m[1], bool):
-            m = ('ok', m[1] * scale) + tuple(m[2:])
+            try:
+                m = ('ok', m[1] * scale) + tuple(m[2:])
+            except OverflowError:
+                # a > 1024-bit integer times a float scale: no float can hold it. Outside the property's domain; only the position rule is kept.
+                require(is_raised(res, OverflowError) or not is_raised(res), f'{how}: unexpected exception for an integer too large for a float scale', got=res)
+                if is_raised(res):
+                    require(s.pos == self.pos, 'a failed read moved pos', pos=s.pos, expected=self.pos)
+                    return
+                m = ('ok', ANYVAL) + tuple(m[2:])
         what = f"{how}({text!r})"
         if m[0] == 'ok':
             require(not is_raised(res), f'{what} raised', got=res, pos=self.pos, len=len(self.bits))
